@@ -225,6 +225,16 @@ def decide(prop, tier, seed, gdir, units, results, notes, wall):
     if helper_notes:
         # obligations of the same helper units that got no verdict (CBMC reports UNKNOWN behind a failed assertion) go with them
         undec = [x for x in undec if undec_fn.get(x) not in helpers_refuted]
+    lifetime = None
+    if prop == 'C08':
+        # supporting static fact for "values destroyed exactly once" (lib/lifetime_scan.py): no hand-managed lifetimes anywhere
+        # in cappuccino::; a hit is UNDECIDED (exit 2), never a violation
+        import lifetime_scan
+        lifetime = lifetime_scan.scan(engine.REPO)
+        if not lifetime['ok']:
+            undec.append('lifetime scan: ' + lifetime.get('error', '')[:300])
+        for h in lifetime['hits']:
+            undec.append('lifetime scan: %s -- value lifetimes are no longer managed by the std:: containers alone; "destroyed exactly once" is not decided' % h)
     cosd = json.load(open(os.path.join(gdir, 'OK'))).get('cosim', {})
     cos = cosd.get('calls', 0)
     ev = dict(property_id=prop, tier=tier, seed=seed,
@@ -246,7 +256,7 @@ def decide(prop, tier, seed, gdir, units, results, notes, wall):
                   traces_validated_against_impl=cos,
                   cosim_undefined_behaviour=[dict(container=u['container'], how=u['how']) for u in cosd.get('ub', [])],
                   samples=[dict(id=o['id'], status=o['status'], kind=o['kind'], expr=o.get('expr', o['desc'])[:200]) for o in (refuted[:5] + [x for x in obls if x['kind'] == 'postcondition'][:12])],
-                  undecided=undec, route_u_not_finished=u_timeouts),
+                  undecided=undec, route_u_not_finished=u_timeouts, **(dict(static_lifetime_facts=lifetime) if lifetime else {})),
               assumptions=scan_assumptions() + ['bounded stand-in: capacity <= %d in these obligations' % max([u.maxcap for u in units if u.maxcap] or [0])] + u_assumptions(results),
               wall_s=round(wall, 1), violations=len(viol))
     os.makedirs(os.path.join(engine.VERIF, 'evidence'), exist_ok=True)
